@@ -1,17 +1,18 @@
 """C01 — responses reach exactly the call that asked (client in-flight table)."""
 import time
-from vlib import Scratch, Inconclusive, log, write_evidence
+from vlib import Scratch, Inconclusive, log, write_evidence, replay_test
 import kprop
 import tablecommon as T
+import wirecommon as W
 
 PID = "C01"
 STATIC = {
     "coverage": {
-        "functions_encoded": T.FUNCS_C,
+        "functions_encoded": T.FUNCS_C + ["serde-derived Deserialize of tarpc::Response<u32> and tarpc::ClientMessage<u32> (a frame that names no request id must be rejected)"],
         "outside_claim": ["request-id allocation in Channel::call (shared atomic counter) and the dispatch's read pump that feeds responses to the table: client::RequestDispatch is out of CBMC's reach; the claim is that the TABLE routes by id",
                           "more than 2 concurrent calls, histories longer than 3 operations, cloned handles"],
     },
-    "assumptions": T.ASSUMPTIONS,
+    "assumptions": T.ASSUMPTIONS + [W.WIRE_ASSUMPTIONS[0], "missing-id harnesses: self-describing (JSON-like) wire model only — under the positional bincode models a field cannot be absent; a counterexample is additionally pushed through the real tokio_serde Json codec (replay/tests/c01_missing_id_real_json.rs)"],
 }
 
 
@@ -19,9 +20,16 @@ def main(tier):
     t0 = time.time()
     with Scratch(PID) as s:
         try:
+            # wire side first (the overlay injection below changes the scratch copy of tarpc)
+            def real_codec(h, vals):
+                name = "response_without_id_is_rejected" if "response" in h else "cancel_without_id_is_rejected"
+                ok, out = replay_test(s, "c01_missing_id_real_json", {}, [name])
+                return {"test": "c01_missing_id_real_json::" + name + " (tokio_serde::formats::Json)", "reproduced": not ok, "output": out}
+            recs, viol, known, inc, wall = kprop.decide(PID, tier, s, "wire", dict(W.C01), timeout_s=1200, harness_timeout=600, extra_replay=real_codec)
             client = ["cift_routing_out_of_order", "cift_steps2"] + (["cift_steps3"] if tier == "thorough" else [])
-            recs, viol, known, inc, wall = T.run_tables(PID, tier, s, client=client, timeout_s=3000 if tier == "quick" else 7200,
-                                                        harness_timeout=1500 if tier == "quick" else 3600)
+            r, v, k, i, w = T.run_tables(PID, tier, s, client=client, timeout_s=3000 if tier == "quick" else 7200,
+                                         harness_timeout=1500 if tier == "quick" else 3600)
+            recs.update(r); viol += v; known += k; inc += i; wall += w
         except Inconclusive as e:
             log("INCONCLUSIVE property=%s: %s" % (PID, e))
             write_evidence(PID, tier, t0, {"evaluations": 1, "distinct_nontrivial": 0, "explanation": str(e), "samples": []}, STATIC["assumptions"], 0)
